@@ -102,6 +102,7 @@ TFin ==
        /\ Ev.def = fan[2 + 1]                                  \* finalize() = default options = legacy f32 formula
        /\ FanLattice(Ev.fan)                                   \* permissive options only widen (C10)
        /\ OkResultsValid(s.v, Ev.fan, n)
+       /\ \A i \in 1..32 : Ev.fan[i].ok => Ev.rt[i] = 1           \* survives this build's parser (C15)
        /\ s.known => \A o \in {0, 2, 13, 31} : Ev.fan[o + 1] = RefHash(s.v, s.fed, o)
     /\ UNCHANGED gens
 
